@@ -2,10 +2,11 @@
    (2 |U| + 16), never runs out of fuel — for EVERY byte string U, every class table whose read programs only seek
    forward, every allocation cap.  Each iteration that continues moves the get position forward by at least one byte.
    Part 1: the in-memory stream on arbitrary (also hostile) positions.  Proofs only. *)
-From VB Require Import Base IR Sem BaseFacts StreamFacts.
+From VB Require Import Base IR Sem BaseFacts StreamFacts SpinFacts.
 From Coq Require Import ZifyBool.
 Local Open Scope Z_scope.
 Ltac Zify.zify_post_hook ::= Z.div_mod_to_equations.
+Ltac errne H := cbn [bind]; let E := fresh in intros E; apply H; injection E as ->; reflexivity.
 
 (* a stream of the in-memory flavour: the zipper holds the data, its cursor sits at the get position clamped into the data
    (a relative seek may leave the position negative; reads then deliver nothing) *)
@@ -210,14 +211,17 @@ Lemma scan_mono : rules_ok = true -> forall n tmp i r i', pstream i -> scan_loop
 Proof.
   intros HR. induction n as [|n IH]; intros tmp i r i' Hp H; [discriminate|].
   cbn [scan_loop] in H. pose proof (pstream_read 4 i Hp) as R. destruct (s_read 4 i) as [got i1].
-  destruct R as (P1 & S1 & Pos1 & _ & _ & Eof1).
+  destruct R as (P1 & S1 & Pos1 & _ & Good1 & Eof1).
+  assert (St : scan_stop sp i1 = rd_short i 4).
+  { unfold scan_stop. rewrite Good1, Eof1. replace (4 <=? 0) with false by reflexivity. rewrite andb_false_r.
+    destruct (sp_stop_on_fail sp); [apply negb_involutive|reflexivity]. }
   destruct Hp as [W P]. pose proof (rd_len_nonneg i 4).
   destruct (merge_scalar 4 tmp got =? sp_sig sp).
   - inversion H; subst. split; [exact P1|]. split; [exact S1|]. split; [lia|].
     destruct (rd_short i 4) eqn:Sh.
     + left. rewrite Pos1, S1. apply rd_short_end; assumption.
     + right. rewrite Pos1. rewrite rd_full; [lia|exact P|lia|exact Sh].
-  - rewrite Eof1 in H. replace (4 <=? 0) with false in H by reflexivity. rewrite andb_false_r in H.
+  - rewrite St in H.
     destruct (rd_short i 4) eqn:Sh; [discriminate|].
     assert (L4 : rd_len i 4 = 4) by (apply rd_full; [exact P|lia|exact Sh]).
     pose proof (scan_rule_range (merge_scalar 4 tmp got) HR) as Rk.
@@ -235,15 +239,47 @@ Proof.
   intros HR Hsig n i r i' Hp H. destruct (scan_mono HR n 0 i r i' Hp H) as (A & B & C & [D|D]); [|lia].
   destruct (Z.eq_dec (s_pos i) (s_size i)) as [E|E].
   - exfalso. destruct n as [|n]; [discriminate|]. cbn [scan_loop] in H.
-    pose proof (pstream_read 4 i Hp) as R. destruct (s_read 4 i) as [got i1]. destruct R as (P1 & S1 & Pos1 & Lg & _ & Eof1).
+    pose proof (pstream_read 4 i Hp) as R. destruct (s_read 4 i) as [got i1]. destruct R as (P1 & S1 & Pos1 & Lg & Good1 & Eof1).
     assert (L0 : rd_len i 4 = 0).
     { unfold rd_len. replace (s_size i <? 4 + s_pos i) with true by lia. replace (s_size i - s_pos i <=? 0) with true by lia. reflexivity. }
     assert (got = []) by (destruct got; [reflexivity|unfold zlen in Lg; cbn in Lg; lia]). subst got.
     change (merge_scalar 4 0 []) with 0 in H. replace (0 =? sp_sig sp) with false in H by lia.
-    assert (Ee : s_eof i1 = true).
-    { rewrite Eof1. unfold rd_short. replace (s_size i <? 4 + s_pos i) with true by lia. reflexivity. }
+    assert (Ee : scan_stop sp i1 = true).
+    { unfold scan_stop. rewrite Good1, Eof1. unfold rd_short. replace (s_size i <? 4 + s_pos i) with true by lia.
+      destruct (sp_stop_on_fail sp); reflexivity. }
     rewrite Ee in H. discriminate.
   - destruct Hp as [(_ & _ & _ & _ & X) _]. lia.
+Qed.
+
+Lemma data_len i : zlen (s_data i) = zlen (s_before i) + zlen (s_after i).
+Proof. unfold s_data, zlen. rewrite rev_append_rev, app_length, rev_length. lia. Qed.
+
+(* the search itself ends: every iteration that goes on has read 4 bytes that were there and seeks back at most 3 *)
+Lemma scan_no_spin_p : rules_ok = true -> forall n tmp i, pstream i -> (Z.to_nat (s_size i - s_pos i) + 2 <= n)%nat ->
+  scan_loop sp n tmp i <> Err ESpin.
+Proof.
+  intros HR. induction n as [|n IH]; intros tmp i Hp Hf; [lia|].
+  cbn [scan_loop]. pose proof (pstream_read 4 i Hp) as R. destruct (s_read 4 i) as [got i1].
+  destruct R as (P1 & S1 & Pos1 & _ & Good1 & Eof1).
+  assert (St : scan_stop sp i1 = rd_short i 4).
+  { unfold scan_stop. rewrite Good1, Eof1. replace (4 <=? 0) with false by reflexivity. rewrite andb_false_r.
+    destruct (sp_stop_on_fail sp); [apply negb_involutive|reflexivity]. }
+  destruct (merge_scalar 4 tmp got =? sp_sig sp); [discriminate|]. rewrite St.
+  destruct (rd_short i 4) eqn:Sh; [discriminate|].
+  destruct Hp as [W P].
+  assert (L4 : rd_len i 4 = 4) by (apply rd_full; [exact P|lia|exact Sh]).
+  assert (Hsz : 4 + s_pos i <= s_size i) by (unfold rd_short in Sh; lia).
+  pose proof (scan_rule_range (merge_scalar 4 tmp got) HR) as Rk.
+  set (k := scan_rule (sp_rules sp) (merge_scalar 4 tmp got)) in *.
+  destruct (k =? 0) eqn:Ek.
+  - apply IH; [exact P1|]. lia.
+  - destruct (pstream_seek k i1 P1) as (A2 & B2 & C2 & _); [lia|].
+    apply IH; [exact A2|]. lia.
+Qed.
+
+Lemma pstream_fuel i : pstream i -> (Z.to_nat (s_size i - s_pos i) + 2 <= S (S (length (s_data i))))%nat.
+Proof.
+  intros [(_ & _ & H3 & _ & _) P]. pose proof (data_len i) as D. unfold zlen in *. lia.
 Qed.
 
 End Scan.
@@ -303,6 +339,54 @@ Proof.
     destruct (fst v =? 0); [eapply IHb|eapply IHa]; eauto.
 Qed.
 
+Lemma read_into_no_spin x old got : read_into x old got <> Err ESpin.
+Proof.
+  unfold read_into. destruct (f_kind x); destruct old;
+    repeat match goal with |- context [if ?c then _ else _] => destruct c end; discriminate.
+Qed.
+
+(* ... and never hangs in the signature search *)
+Theorem run_r_no_spin_p : rules_ok sp = true -> (forall tg m s, call tg m s <> Err ESpin) ->
+  forall p s l i, seeks_ok p = true -> pstream i -> run_r cs call sp cap p s l i <> Err ESpin.
+Proof.
+  intros HR Hcall.
+  induction p as [| e | | | f k IH | f k IH | f e k IH | f e k IH | f e k IH | e k IH | e k IH | f e k IH | x t e k IH | x e k IH | k IH | c a IHa b IHb];
+    intros s l i Hs Hp; cbn [run_r]; cbn [seeks_ok] in Hs; try discriminate.
+  - destruct (find_field cs f) as [x|]; [|discriminate]. destruct (ksize (f_kind x)) as [w|]; [|discriminate].
+    pose proof (pstream_read w i Hp) as R. destruct (s_read w i) as [got i1]. destruct R as (P1 & _).
+    pose proof (read_into_no_spin x (s f) got) as He.
+    destruct (read_into x (s f) got) as [v|]; cbn [bind]; [apply IH; assumption|errne He].
+  - pose proof (eval_as_no_spin cs call I64 s l e Hcall) as He.
+    destruct (eval_as cs call I64 s l e) as [n|]; cbn [bind]; [|errne He].
+    destruct (s f) as [|b|]; try discriminate.
+    pose proof (pstream_read n i Hp) as R. destruct (s_read n i) as [got i1]. destruct R as (P1 & _).
+    destruct (zlen b <? zlen got); [discriminate|]. apply IH; assumption.
+  - pose proof (eval_as_no_spin cs call U64 s l e Hcall) as He.
+    destruct (eval_as cs call U64 s l e) as [n|]; cbn [bind]; [|errne He].
+    destruct (find_field cs f) as [x|]; [|discriminate]. destruct (s f) as [|b|]; try discriminate.
+    destruct (cap <? n * kelt (f_kind x)); [discriminate|]. apply IH; assumption.
+  - apply andb_prop in Hs. destruct Hs as [Hs1 Hs2].
+    pose proof (eval_as_no_spin cs call I64 s l e Hcall) as He.
+    destruct (eval_as cs call I64 s l e) as [off|] eqn:Eo; cbn [bind]; [|errne He].
+    pose proof (seek_ok_nonneg cs call e s l off Hs1 Eo) as Hoff.
+    destruct Hp as [W P]. destruct (pstream_seek off i (conj W P)) as (A2 & _); [lia|]. apply IH; assumption.
+  - destruct (find_field cs f) as [x|]; [|discriminate]. destruct (f_kind x) as [t| |]; try discriminate.
+    pose proof (eval_as_no_spin cs call t s l e Hcall) as He.
+    destruct (eval_as cs call t s l e) as [v|]; cbn [bind]; [apply IH; assumption|errne He].
+  - pose proof (eval_as_no_spin cs call t s l e Hcall) as He.
+    destruct (eval_as cs call t s l e) as [v|]; cbn [bind]; [apply IH; assumption|errne He].
+  - destruct (l x) as [[? t]|]; [|discriminate].
+    pose proof (eval_as_no_spin cs call t s l e Hcall) as He.
+    destruct (eval_as cs call t s l e) as [v|]; cbn [bind]; [apply IH; assumption|errne He].
+  - pose proof (scan_no_spin_p sp HR (S (S (length (s_data i)))) 0 i Hp (pstream_fuel i Hp)) as Hn.
+    destruct (scan_loop sp (S (S (length (s_data i)))) 0 i) as [[r i1]|] eqn:Es; cbn [bind]; [|errne Hn].
+    destruct (scan_mono sp HR _ _ _ _ _ Hp Es) as (A1 & _). cbn [fst snd]. apply IH; assumption.
+  - apply andb_prop in Hs. destruct Hs as [Hs1 Hs2].
+    pose proof (eval_no_spin cs call c Hcall s l) as He.
+    destruct (eval cs call s l c) as [v|]; cbn [bind]; [|errne He].
+    destruct (fst v =? 0); [apply IHb|apply IHa]; assumption.
+Qed.
+
 (* a program that begins with the signature search consumes at least one byte *)
 Corollary run_r_scan_progress : rules_ok sp = true -> sp_sig sp <> 0 -> forall k s l i s' i', seeks_ok k = true -> pstream i ->
   run_r cs call sp cap (PScan k) s l i = Ok (s', i') ->
@@ -321,6 +405,9 @@ Fixpoint starts_with_scan (p : prog) : bool :=
   | PAssign _ _ k => starts_with_scan k
   | _ => false
   end.
+
+Lemma starts_seeks p : starts_with_scan p = true -> seeks_ok p = true.
+Proof. induction p; cbn [starts_with_scan seeks_ok]; intros H; try discriminate; auto. Qed.
 
 Lemma run_r_start_progress : rules_ok sp = true -> sp_sig sp <> 0 -> forall p s l i s' i', starts_with_scan p = true -> pstream i ->
   run_r cs call sp cap p s l i = Ok (s', i') ->
@@ -362,6 +449,16 @@ Hypothesis HR : rules_ok sp = true.
 Hypothesis Hsig : sp_sig sp <> 0.
 Hypothesis Hohb : ohb_shape (prog_of cs C_ohb M_read) = true.
 Hypothesis Hcls : forall code, lookup_factory factory code <> 0 -> class_ok (lookup_factory factory code) = true.
+
+Lemma ohb_seeks p : ohb_shape p = true -> seeks_ok cs p = true.
+Proof.
+  intros H. destruct p as [| | | | | | | | | | | | | |k|]; try discriminate.
+  destruct k as [| | | |f1 k| | | | | | | | | | |]; try discriminate.
+  destruct k as [| | | |f2 k| | | | | | | | | | |]; try discriminate.
+  destruct k as [| | | |f3 k| | | | | | | | | | |]; try discriminate.
+  destruct k as [| | | |f4 k| | | | | | | | | | |]; try discriminate.
+  destruct k; try discriminate. reflexivity.
+Qed.
 
 Lemma read_chain w base c j : pstream j -> 0 < w -> (s_pos j = s_size j \/ base + c <= s_pos j) ->
   let '(got, j') := s_read w j in
@@ -421,7 +518,8 @@ Proof.
   induction fuel as [|fuel IH]; intros i acc count Hp Hf; [lia|].
   cbn [obj_loop]. unfold dec at 1.
   destruct (run_r cs (callf cs C_ohb) sp cap (prog_of cs C_ohb M_read) (fresh cs C_ohb) no_locals i) as [[h i1]|e] eqn:E1.
-  2:{ destruct e; cbn; discriminate. }
+  2:{ pose proof (run_r_no_spin_p cs (callf cs C_ohb) sp cap HR (callf_no_spin cs C_ohb) _ (fresh cs C_ohb) no_locals i (ohb_seeks _ Hohb) Hp) as N.
+      rewrite E1 in N. destruct e; cbn; try discriminate. exfalso; apply N; reflexivity. }
   destruct (s_good i1) eqn:G1; cbn [negb]; [|cbn; discriminate].
   destruct (ohb_consumes _ _ _ _ _ _ _ Hohb Hp E1 G1) as (P1 & S1 & Pos1).
   assert (Hpos : 0 <= s_pos i) by apply Hp.
@@ -439,7 +537,8 @@ Proof.
     destruct (osize cs c (fresh cs c)) as [sz0|]; [|cbn; discriminate].
     unfold dec. unfold class_ok in Hcls.
     destruct (run_r cs (callf cs c) sp cap (prog_of cs c M_read) (fresh cs c) no_locals i2) as [[o i3]|e] eqn:E3.
-    2:{ destruct e; cbn; discriminate. }
+    2:{ pose proof (run_r_no_spin_p cs (callf cs c) sp cap HR (callf_no_spin cs c) _ (fresh cs c) no_locals i2 (starts_seeks cs _ Hcls) P2) as N.
+        rewrite E3 in N. destruct e; cbn; try discriminate. exfalso; apply N; reflexivity. }
     destruct (s_good i3) eqn:G3; cbn [negb]; [|cbn; discriminate].
     destruct (run_r_start_progress cs (callf cs c) sp cap HR Hsig _ _ _ _ _ _ Hcls P2 E3) as (P3 & S3 & Pos3).
     assert (Hle3 : s_pos i3 <= s_size i3) by (destruct P3 as [(_ & _ & _ & _ & X) _]; exact X).
@@ -459,34 +558,72 @@ Qed.
 
 End Loop.
 
-(* ================= Part 4: the inflating stage (std::fstream flavour: a failed read sticks) ================= *)
-Lemma st_read n i : s_sticky i = true ->
+(* ================= Part 4: the inflating stage (std::fstream flavour: a failed read sticks; File::close may close the
+   file under the worker's feet at any moment — Sem.s_open) ================= *)
+Definition sstream (i : istream) : Prop :=
+  s_sticky i = true /\ s_size i = zlen (s_before i) + zlen (s_after i) /\ 0 <= s_pos i.
+
+Lemma sstream_mk b : sstream (mk_fstream b).
+Proof. unfold sstream, mk_fstream; cbn. change (zlen (@nil Z)) with 0. split; [reflexivity|]. split; lia. Qed.
+Lemma sstream_mk_closing b k : sstream (mk_fstream_closing b k).
+Proof. unfold sstream, mk_fstream_closing; cbn. change (zlen (@nil Z)) with 0. split; [reflexivity|]. split; lia. Qed.
+
+Lemma sstream_fuel i : sstream i -> (Z.to_nat (s_size i - s_pos i) + 2 <= S (S (length (s_data i))))%nat.
+Proof. intros (_ & H2 & H3). pose proof (data_len i) as D. unfold zlen in *. lia. Qed.
+
+Lemma st_read n i : sstream i ->
   let '(got, i') := s_read n i in
-  s_sticky i' = true /\ s_size i' = s_size i /\ s_pos i <= s_pos i' /\
+  sstream i' /\ s_size i' = s_size i /\ s_pos i <= s_pos i' /\
   (s_good i' = true -> s_good i = true /\ (0 < n -> s_pos i' = s_pos i + n /\ s_pos i + n <= s_size i)).
 Proof.
-  intros Hs. unfold s_read. rewrite Hs. destruct (s_good i) eqn:G; cbn [negb].
-  2:{ split; [exact Hs|]. split; [reflexivity|]. split; [lia|]. intros C. rewrite G in C. discriminate. }
+  intros (Hs & Hz & Hp). unfold s_read. rewrite Hs. destruct (s_good i) eqn:G; cbn [negb].
+  2:{ split; [repeat split; assumption|]. split; [reflexivity|]. split; [lia|]. intros C. rewrite G in C. discriminate. }
   destruct (n <=? 0) eqn:N.
-  { split; [exact Hs|]. split; [reflexivity|]. split; [lia|]. intros _. split; [reflexivity|]. intros C. lia. }
+  { split; [repeat split; assumption|]. split; [reflexivity|]. split; [lia|]. intros _. split; [reflexivity|]. intros C. lia. }
   apply Z.leb_gt in N.
+  destruct (closed_now i).
+  { unfold sstream. cbn [s_sticky s_size s_pos s_good s_before s_after]. split; [repeat split; assumption|]. split; [reflexivity|]. split; [lia|]. intros C; discriminate. }
   set (avail := Z.max 0 (s_size i - s_pos i)). destruct (avail <? n) eqn:Sh.
-  - destruct (zip_take (Z.to_nat avail) (s_before i) (s_after i)) as [got [b a]].
-    cbn [s_sticky s_size s_pos s_good negb]. split; [reflexivity|]. split; [reflexivity|]. split; [unfold avail; lia|]. intros C; discriminate.
-  - destruct (zip_take (Z.to_nat n) (s_before i) (s_after i)) as [got [b a]].
-    cbn [s_sticky s_size s_pos s_good negb]. apply Z.ltb_ge in Sh.
-    split; [reflexivity|]. split; [reflexivity|]. split; [lia|]. intros _. split; [reflexivity|]. intros _. unfold avail in Sh. lia.
+  - rewrite zip_take_spec. unfold sstream. cbn [s_sticky s_size s_pos s_good s_before s_after negb].
+    rewrite zlen_app, zlen_rev, zlen_firstn, zlen_skipn.
+    split; [split; [reflexivity|split; [unfold zlen in *; lia|unfold avail; lia]]|]. split; [reflexivity|]. split; [unfold avail; lia|]. intros C; discriminate.
+  - rewrite zip_take_spec. unfold sstream. cbn [s_sticky s_size s_pos s_good s_before s_after negb]. apply Z.ltb_ge in Sh.
+    rewrite zlen_app, zlen_rev, zlen_firstn, zlen_skipn.
+    split; [split; [reflexivity|split; [unfold zlen in *; lia|lia]]|]. split; [reflexivity|]. split; [lia|]. intros _. split; [reflexivity|]. intros _. unfold avail in Sh. lia.
 Qed.
 
-Lemma st_seek off i : s_sticky i = true ->
-  s_sticky (s_seek off i) = true /\ s_size (s_seek off i) = s_size i /\
-  (s_good (s_seek off i) = true -> s_good i = true /\ s_pos (s_seek off i) = s_pos i + off) /\
-  (0 <= off -> s_pos i <= s_pos (s_seek off i)).
+Lemma zip_move_total b a c p : let '(b', a', _) := zip_move b a c p in zlen b' + zlen a' = zlen b + zlen a.
 Proof.
-  intros Hs. unfold s_seek. rewrite Hs. destruct (s_good i) eqn:G.
-  - destruct (zip_move (s_before i) (s_after i) (s_cur i) (s_pos i + off)) as [[b a] c].
-    cbn [s_sticky s_size s_pos s_good]. split; [reflexivity|]. split; [reflexivity|]. split; [intros _; split; [reflexivity|reflexivity]|intros; lia].
-  - split; [exact Hs|]. split; [reflexivity|]. split; [intros C; rewrite G in C; discriminate|intros; lia].
+  unfold zip_move. destruct (c <=? p).
+  - rewrite zip_fwd_gen. rewrite zlen_app, zlen_rev, zlen_firstn, zlen_skipn. lia.
+  - rewrite zip_fwd_gen. rewrite zlen_app, zlen_rev, zlen_firstn, zlen_skipn. lia.
+Qed.
+
+Lemma st_seek off i : sstream i ->
+  sstream (s_seek off i) /\ s_size (s_seek off i) = s_size i /\
+  (s_good (s_seek off i) = true -> s_good i = true /\ s_pos (s_seek off i) = s_pos i + off) /\
+  (s_pos (s_seek off i) = s_pos i + off \/ s_pos (s_seek off i) = s_pos i).
+Proof.
+  intros (Hs & Hz & Hp). unfold s_seek. rewrite Hs. destruct (s_good i) eqn:G.
+  - destruct (closed_now i || (s_pos i + off <? 0)) eqn:C.
+    + unfold sstream. cbn [s_sticky s_size s_pos s_good s_before s_after].
+      split; [repeat split; assumption|]. split; [reflexivity|]. split; [intros X; discriminate|right; reflexivity].
+    + apply orb_false_elim in C. destruct C as [_ C]. apply Z.ltb_ge in C.
+      pose proof (zip_move_total (s_before i) (s_after i) (s_cur i) (s_pos i + off)) as T.
+      destruct (zip_move (s_before i) (s_after i) (s_cur i) (s_pos i + off)) as [[b a] c].
+      unfold sstream. cbn [s_sticky s_size s_pos s_good s_before s_after].
+      split; [split; [reflexivity|split; lia]|]. split; [reflexivity|]. split; [intros _; split; reflexivity|left; reflexivity].
+  - split; [repeat split; assumption|]. split; [reflexivity|]. split; [intros C; rewrite G in C; discriminate|right; reflexivity].
+Qed.
+
+(* THE DEFECT this part was written around (repaired in /repo by b825602): a search that gives up at end of file only never ends
+   on a stream that has failed without reaching the end — e.g. after a seek on a file closed by File::close *)
+Lemma scan_spins_when_only_eof_stops sp : sp_stop_on_fail sp = false -> sp_sig sp <> 0 -> scan_rule (sp_rules sp) 0 = 0 ->
+  forall n i, s_sticky i = true -> s_good i = false -> s_eof i = false -> scan_loop sp n 0 i = Err ESpin.
+Proof.
+  intros Hf Hsig Hr. induction n as [|n IH]; intros i Hs Hg He; [reflexivity|].
+  cbn [scan_loop]. unfold s_read. rewrite Hs, Hg. cbn [negb]. change (merge_scalar 4 0 []) with 0.
+  replace (0 =? sp_sig sp) with false by lia. unfold scan_stop. rewrite Hf, He. rewrite Hr. cbn [Z.eqb]. apply IH; assumption.
 Qed.
 
 Section Sticky.
@@ -497,8 +634,8 @@ Variable cap : Z.
 Hypothesis HR : rules_ok sp = true.
 
 (* if the stream is still good after the signature search, the search consumed at least 4 bytes that were there *)
-Lemma st_scan : forall n tmp i r i', s_sticky i = true -> scan_loop sp n tmp i = Ok (r, i') ->
-  s_sticky i' = true /\ s_size i' = s_size i /\
+Lemma st_scan : forall n tmp i r i', sstream i -> scan_loop sp n tmp i = Ok (r, i') ->
+  sstream i' /\ s_size i' = s_size i /\
   (s_good i' = true -> s_good i = true /\ s_pos i + 4 <= s_pos i' /\ s_pos i' <= s_size i').
 Proof.
   induction n as [|n IH]; intros tmp i r i' Hs H; [discriminate|].
@@ -506,7 +643,7 @@ Proof.
   destruct (merge_scalar 4 tmp got =? sp_sig sp).
   - inversion H; subst. split; [exact S1|]. split; [exact Z1|]. intros G. destruct (G1 G) as [A B].
     assert (H4 : 0 < 4) by lia. destruct (B H4) as [B1 B2]. split; [exact A|]. lia.
-  - destruct (s_eof i1); [discriminate|].
+  - destruct (scan_stop sp i1); [discriminate|].
     pose proof (scan_rule_range sp (merge_scalar 4 tmp got) HR) as Rk. set (k := scan_rule (sp_rules sp) (merge_scalar 4 tmp got)) in *.
     assert (H4 : 0 < 4) by lia.
     destruct (k =? 0) eqn:Ek.
@@ -517,14 +654,30 @@ Proof.
       destruct (G2 C1) as [F1 F2]. destruct (G1 F1) as [D1 D2]. destruct (D2 H4) as [E1 E2]. split; [exact D1|]. lia.
 Qed.
 
+(* the search ends on EVERY stream of this flavour — open, failed, or closed under the worker's feet at any moment — provided
+   it gives up on any failed stream: an iteration that goes on has read 4 bytes that were there and seeks back at most 3 *)
+Lemma st_scan_no_spin : sp_stop_on_fail sp = true -> forall n tmp i, sstream i ->
+  (Z.to_nat (s_size i - s_pos i) + 2 <= n)%nat -> scan_loop sp n tmp i <> Err ESpin.
+Proof.
+  intros Hf. induction n as [|n IH]; intros tmp i Hs Hn; [lia|].
+  cbn [scan_loop]. pose proof (st_read 4 i Hs) as R. destruct (s_read 4 i) as [got i1]. destruct R as (S1 & Z1 & M1 & G1).
+  destruct (merge_scalar 4 tmp got =? sp_sig sp); [discriminate|].
+  unfold scan_stop. rewrite Hf. destruct (s_good i1) eqn:Gd; cbn [negb]; [|discriminate].
+  destruct (G1 eq_refl) as [_ B]. assert (H4 : 0 < 4) by lia. destruct (B H4) as [B1 B2].
+  pose proof (scan_rule_range sp (merge_scalar 4 tmp got) HR) as Rk. set (k := scan_rule (sp_rules sp) (merge_scalar 4 tmp got)) in *.
+  destruct (k =? 0) eqn:Ek.
+  - apply IH; [exact S1|]. lia.
+  - destruct (st_seek k i1 S1) as (S2 & Z2 & _ & [P2|P2]); (apply IH; [exact S2|]; lia).
+Qed.
+
 (* a read program that only seeks forward: if the stream is still good at the end it was good at the start and did not move back *)
-Theorem st_run_mono : forall p s l i s' i', seeks_ok cs p = true -> s_sticky i = true ->
+Theorem st_run_mono : forall p s l i s' i', seeks_ok cs p = true -> sstream i ->
   run_r cs call sp cap p s l i = Ok (s', i') ->
-  s_sticky i' = true /\ s_size i' = s_size i /\ (s_good i' = true -> s_good i = true /\ s_pos i <= s_pos i').
+  sstream i' /\ s_size i' = s_size i /\ (s_good i' = true -> s_good i = true /\ s_pos i <= s_pos i').
 Proof.
   induction p as [| e | | | f k IH | f k IH | f e k IH | f e k IH | f e k IH | e k IH | e k IH | f e k IH | x t e k IH | x e k IH | k IH | c a IHa b IHb];
     intros s l i s' i' Hs Hst H; cbn [run_r] in H; cbn [seeks_ok] in Hs; try discriminate.
-  - inversion H; subst. repeat split; auto; lia.
+  - inversion H; subst. repeat split; auto; try apply Hst; lia.
   - destruct (find_field cs f) as [x|]; [|discriminate]. destruct (ksize (f_kind x)) as [w|]; [|discriminate].
     pose proof (st_read w i Hst) as R. destruct (s_read w i) as [got i1]. destruct R as (S1 & Z1 & M1 & G1).
     destruct (read_into x (s f) got) as [v|]; cbn [bind] in H; [|discriminate].
@@ -557,6 +710,45 @@ Proof.
     destruct (fst v =? 0); [eapply IHb|eapply IHa]; eauto.
 Qed.
 
+(* no read program hangs in the signature search on a stream of this flavour (any program: a seek that would leave the file fails) *)
+Theorem st_run_no_spin : sp_stop_on_fail sp = true -> (forall tg m s, call tg m s <> Err ESpin) ->
+  forall p s l i, sstream i -> run_r cs call sp cap p s l i <> Err ESpin.
+Proof.
+  intros Hf Hcall.
+  induction p as [| e | | | f k IH | f k IH | f e k IH | f e k IH | f e k IH | e k IH | e k IH | f e k IH | x t e k IH | x e k IH | k IH | c a IHa b IHb];
+    intros s l i Hst; cbn [run_r]; try discriminate.
+  - destruct (find_field cs f) as [x|]; [|discriminate]. destruct (ksize (f_kind x)) as [w|]; [|discriminate].
+    pose proof (st_read w i Hst) as R. destruct (s_read w i) as [got i1]. destruct R as (S1 & _).
+    pose proof (read_into_no_spin x (s f) got) as He.
+    destruct (read_into x (s f) got) as [v|]; cbn [bind]; [apply IH; assumption|errne He].
+  - pose proof (eval_as_no_spin cs call I64 s l e Hcall) as He.
+    destruct (eval_as cs call I64 s l e) as [n|]; cbn [bind]; [|errne He].
+    destruct (s f) as [|b|]; try discriminate.
+    pose proof (st_read n i Hst) as R. destruct (s_read n i) as [got i1]. destruct R as (S1 & _).
+    destruct (zlen b <? zlen got); [discriminate|]. apply IH; assumption.
+  - pose proof (eval_as_no_spin cs call U64 s l e Hcall) as He.
+    destruct (eval_as cs call U64 s l e) as [n|]; cbn [bind]; [|errne He].
+    destruct (find_field cs f) as [x|]; [|discriminate]. destruct (s f) as [|b|]; try discriminate.
+    destruct (cap <? n * kelt (f_kind x)); [discriminate|]. apply IH; assumption.
+  - pose proof (eval_as_no_spin cs call I64 s l e Hcall) as He.
+    destruct (eval_as cs call I64 s l e) as [off|] eqn:Eo; cbn [bind]; [|errne He].
+    destruct (st_seek off i Hst) as (S2 & _). apply IH; assumption.
+  - destruct (find_field cs f) as [x|]; [|discriminate]. destruct (f_kind x) as [t| |]; try discriminate.
+    pose proof (eval_as_no_spin cs call t s l e Hcall) as He.
+    destruct (eval_as cs call t s l e) as [v|]; cbn [bind]; [apply IH; assumption|errne He].
+  - pose proof (eval_as_no_spin cs call t s l e Hcall) as He.
+    destruct (eval_as cs call t s l e) as [v|]; cbn [bind]; [apply IH; assumption|errne He].
+  - destruct (l x) as [[? t]|]; [|discriminate].
+    pose proof (eval_as_no_spin cs call t s l e Hcall) as He.
+    destruct (eval_as cs call t s l e) as [v|]; cbn [bind]; [apply IH; assumption|errne He].
+  - pose proof (st_scan_no_spin Hf (S (S (length (s_data i)))) 0 i Hst (sstream_fuel i Hst)) as Hn.
+    destruct (scan_loop sp (S (S (length (s_data i)))) 0 i) as [[r i1]|] eqn:Es; cbn [bind]; [|errne Hn].
+    destruct (st_scan _ _ _ _ _ Hst Es) as (A1 & _). cbn [fst snd]. apply IH; assumption.
+  - pose proof (eval_no_spin cs call c Hcall s l) as He.
+    destruct (eval cs call s l c) as [v|]; cbn [bind]; [|errne He].
+    destruct (fst v =? 0); [apply IHb|apply IHa]; assumption.
+Qed.
+
 (* a program that begins like ObjectHeaderBase::read (search, 2+2+4+4 bytes), possibly after member assignments, and goes on
    seeking only forward: still good at the end means the 16 header bytes were there and were consumed *)
 Fixpoint ohb_prefix (p : prog) : bool :=
@@ -566,9 +758,9 @@ Fixpoint ohb_prefix (p : prog) : bool :=
   | _ => false
   end.
 
-Lemma st_header : forall p s l i s' i', ohb_prefix p = true -> s_sticky i = true ->
+Lemma st_header : forall p s l i s' i', ohb_prefix p = true -> sstream i ->
   run_r cs call sp cap p s l i = Ok (s', i') ->
-  s_sticky i' = true /\ s_size i' = s_size i /\
+  sstream i' /\ s_size i' = s_size i /\
   (s_good i' = true -> s_good i = true /\ s_pos i + 16 <= s_pos i' /\ s_pos i + 16 <= s_size i).
 Proof.
   induction p as [| e | | | f k IH | f k IH | f e k IH | f e k IH | f e k IH | e k IH | e k IH | f e k IH | x t e k IH | x e k IH | k IH | c a IHa b IHb];
@@ -610,13 +802,6 @@ Qed.
 
 End Sticky.
 
-Lemma st_seek_good off i : s_sticky i = true -> s_good i = true ->
-  s_sticky (s_seek off i) = true /\ s_size (s_seek off i) = s_size i /\ s_good (s_seek off i) = true /\ s_pos (s_seek off i) = s_pos i + off.
-Proof.
-  intros Hs Hg. unfold s_seek. rewrite Hs, Hg.
-  destruct (zip_move (s_before i) (s_after i) (s_cur i) (s_pos i + off)) as [[b a] c]. cbn. repeat split; reflexivity.
-Qed.
-
 Section ContLoop.
 Variable cs : classes.
 Variable sp : scan_params.
@@ -624,28 +809,34 @@ Variable cap : Z.
 Variables C_lc C_ohb F_otype F_method F_usize F_cfile : Z.
 Variable inflate : list Z -> Z -> option (list Z).
 Hypothesis HR : rules_ok sp = true.
+Hypothesis Hstop : sp_stop_on_fail sp = true.
 Hypothesis Hohb : ohb_prefix cs (prog_of cs C_ohb M_read) = true.
 Hypothesis Hlc : ohb_prefix cs (prog_of cs C_lc M_read) = true.
 
 (* the inflating stage: every container that is accepted lies inside the file and moves the position on by at least its
-   16-byte base header, so the loop ends within |file| / 16 + 2 iterations — the fuel read_session gives it *)
-Theorem cont_loop_never_out_of_fuel : forall fuel i acc usize, s_sticky i = true ->
+   16-byte base header, so the loop ends within |file| / 16 + 2 iterations — the fuel read_session gives it.  This holds on
+   every stream of the fstream flavour: also one that File::close closes at an arbitrary moment (a failed seek back to the
+   container's start makes the next header read fail, which ends the stage) *)
+Theorem cont_loop_never_out_of_fuel : forall fuel i acc usize, sstream i ->
   (Z.to_nat (Z.max 0 (s_size i - s_pos i) / 16) + 2 <= fuel)%nat ->
   snd (cont_loop cs sp cap C_lc C_ohb F_otype F_method F_usize F_cfile inflate fuel i acc usize) <> EndFuel.
 Proof.
   induction fuel as [|fuel IH]; intros i acc usize Hst Hf; [lia|].
   cbn [cont_loop]. unfold dec at 1.
   destruct (run_r cs (callf cs C_ohb) sp cap (prog_of cs C_ohb M_read) (fresh cs C_ohb) no_locals i) as [[h i1]|e] eqn:E1.
-  2:{ destruct e; cbn; discriminate. }
+  2:{ pose proof (st_run_no_spin cs (callf cs C_ohb) sp cap HR Hstop (callf_no_spin cs C_ohb) (prog_of cs C_ohb M_read) (fresh cs C_ohb) no_locals i Hst) as N.
+      rewrite E1 in N. destruct e; cbn; try discriminate. exfalso; apply N; reflexivity. }
   destruct (s_good i1) eqn:G1; cbn [negb]; [|cbn; discriminate].
   destruct (st_header cs (callf cs C_ohb) sp cap HR _ _ _ _ _ _ Hohb Hst E1) as (T1 & Z1 & H1). destruct (H1 G1) as (G0 & P1 & Q1).
-  destruct (st_seek_good (-16) i1 T1 G1) as (T2 & Z2 & G2 & P2). set (i2 := s_seek (-16) i1) in *.
+  destruct (st_seek (-16) i1 T1) as (T2 & Z2 & G2 & _). set (i2 := s_seek (-16) i1) in *.
   destruct (negb (geti h F_otype =? 10)); [cbn; discriminate|].
   unfold dec.
   destruct (run_r cs (callf cs C_lc) sp cap (prog_of cs C_lc M_read) (fresh cs C_lc) no_locals i2) as [[lc i3]|e] eqn:E3.
-  2:{ destruct e; cbn; discriminate. }
+  2:{ pose proof (st_run_no_spin cs (callf cs C_lc) sp cap HR Hstop (callf_no_spin cs C_lc) (prog_of cs C_lc M_read) (fresh cs C_lc) no_locals i2 T2) as N.
+      rewrite E3 in N. destruct e; cbn; try discriminate. exfalso; apply N; reflexivity. }
   destruct (s_good i3) eqn:G3; cbn [negb]; [|cbn; discriminate].
-  destruct (st_header cs (callf cs C_lc) sp cap HR _ _ _ _ _ _ Hlc T2 E3) as (T3 & Z3 & H3). destruct (H3 G3) as (_ & P3 & Q3).
+  destruct (st_header cs (callf cs C_lc) sp cap HR _ _ _ _ _ _ Hlc T2 E3) as (T3 & Z3 & H3). destruct (H3 G3) as (G2' & P3 & Q3).
+  destruct (G2 G2') as (_ & P2).
   destruct (uncompress_lc cap F_method F_usize F_cfile inflate lc) as [out|e]; [|destruct e; cbn; discriminate].
   apply IH; [exact T3|].
   assert (Hx : 16 <= s_size i - s_pos i) by lia.
@@ -660,12 +851,13 @@ Proof.
 Qed.
 
 (* a stream that has already failed: the first header read cannot succeed, the loop ends at once *)
-Lemma cont_loop_failed_start : forall fuel i acc usize, s_sticky i = true -> s_good i = false ->
+Lemma cont_loop_failed_start : forall fuel i acc usize, sstream i -> s_good i = false ->
   snd (cont_loop cs sp cap C_lc C_ohb F_otype F_method F_usize F_cfile inflate (S fuel) i acc usize) <> EndFuel.
 Proof.
   intros fuel i acc usize Hst Hg. cbn [cont_loop]. unfold dec at 1.
   destruct (run_r cs (callf cs C_ohb) sp cap (prog_of cs C_ohb M_read) (fresh cs C_ohb) no_locals i) as [[h i1]|e] eqn:E1.
-  2:{ destruct e; cbn; discriminate. }
+  2:{ pose proof (st_run_no_spin cs (callf cs C_ohb) sp cap HR Hstop (callf_no_spin cs C_ohb) (prog_of cs C_ohb M_read) (fresh cs C_ohb) no_locals i Hst) as N.
+      rewrite E1 in N. destruct e; cbn; try discriminate. exfalso; apply N; reflexivity. }
   destruct (s_good i1) eqn:G1; cbn [negb]; [|cbn; discriminate].
   destruct (st_header cs (callf cs C_ohb) sp cap HR _ _ _ _ _ _ Hohb Hst E1) as (_ & _ & H1). destruct (H1 G1) as (G0 & _). congruence.
 Qed.
